@@ -110,11 +110,7 @@ def r1(ctx, R):
         R.bad(en, th.ast, "is_cached and has_node are tested on different objects")
     # obj = node[OBJ], key = node[KEY]
     def bound_to(name, idx):
-        for n in walk_local(en.node):
-            if isinstance(n, ast.Assign) and len(n.targets) == 1 and isinstance(n.targets[0], ast.Name) \
-                    and n.targets[0].id == name:
-                return norm(n.value) == "node[%s]" % idx
-        return False
+        return q.rnorm(en, ast.Name(id=name, ctx=ast.Load())) == "node[%s]" % idx
     if not (obj and bound_to(obj, "OBJ") and isinstance(keyarg, ast.Name) and bound_to(keyarg.id, "KEY")):
         R.bad(en, th.ast, "has_node is not applied to (node[OBJ], node[KEY])")
     for m in miss:
@@ -291,7 +287,7 @@ def r3(ctx, R):
     rets = [r_ for r_ in q.returns(gn) if isinstance(r_.value, ast.Tuple) and len(r_.value.elts) == 2]
     ok = False
     for r_ in rets:
-        k = r_.value.elts[1]
+        k = q.resolve(gn, r_.value.elts[1])
         if isinstance(k, ast.Call) and call_name(k) == "_bind_args" and [norm(a) for a in k.args] == ["obj", "args", "kwargs"] \
                 and norm(r_.value.elts[0]) == "obj":
             ok = True
